@@ -8,6 +8,7 @@ import (
 	"math/rand"
 
 	"github.com/sarchlab/akita/v5/hooking"
+	"github.com/sarchlab/akita/v5/mem/memcontrolprotocol"
 	"github.com/sarchlab/akita/v5/mem/memprotocol"
 	"github.com/sarchlab/akita/v5/mem/rob"
 	"github.com/sarchlab/akita/v5/messaging"
@@ -23,7 +24,7 @@ import (
 // Top port (acceptances and answers) and what the lower unit did.
 
 type robStep struct {
-	Op      string `json:"op"`      // "complete" | "quiet"
+	Op      string `json:"op"`      // "complete" | "quiet" | "reset"
 	Req     int    `json:"req"`     // 1-based, in acceptance order
 	Arrived int    `json:"arrived"` // requests accepted before this step in the specification's behaviour
 }
@@ -36,6 +37,9 @@ type robCase struct {
 	// environment (not part of the specification's behaviour)
 	Width     int   `json:"width"`      // NumReqPerCycle
 	TopBuf    int   `json:"top_buf"`    // buffer size of the reorder buffer's Top port
+	TopOut    int   `json:"top_out"`    // outgoing capacity of the reorder buffer's Top port (0: same as top_buf)
+	Stall     int   `json:"stall"`      // the requesters pick up answers only every Stall-th cycle, one per port (0/1: every cycle, all)
+	StallSeed int64 `json:"stall_seed"` // ... with seeded extra stalls
 	BottomBuf int   `json:"bottom_buf"` // ... Bottom port
 	AgentBuf  int   `json:"agent_buf"`  // driver and lower unit ports
 	Quiet     int   `json:"quiet"`      // cycles of a "quiet" step
@@ -77,6 +81,9 @@ type robResult struct {
 	Sent        int              `json:"sent"`
 	Cycles      uint64           `json:"cycles"`
 	MaxInROB    int              `json:"max_in_rob"`
+	ResetAcc    int              `json:"reset_acc"` // requests accepted when the reset was sent (0: no reset)
+	ResetAns    int              `json:"reset_ans"` // answers sent when the reset was acknowledged
+	ResetOK     bool             `json:"reset_ok"`  // the reset was acknowledged with Success
 	BusyAtBound bool             `json:"busy_at_bound"`
 	Panic       string           `json:"panic,omitempty"`
 }
@@ -128,6 +135,19 @@ type topAgent struct {
 	recv     map[string][]uint64 // RspTo per port, in delivery order
 	accepted *int                // requests the reorder buffer has retrieved from its Top port so far
 	waited   int
+
+	ctrl       messaging.Port
+	robCtrl    messaging.RemotePort
+	resetAt    int // the reset follows the acceptance of this many requests (-1: no reset)
+	resetComps int // ... and this many completions of the lower unit
+	resetState int // 0 not yet, 1 settling, 2 sent, 3 acknowledged
+	settle     int
+	resetID    uint64
+	resetWait  int
+	nAnswers   *int // answers the reorder buffer has sent so far
+	res        *robResult
+	stallRng   *rand.Rand
+	engine     timing.Engine
 }
 
 func writeData(g int) []byte {
@@ -142,18 +162,69 @@ type topMW struct{ a *topAgent }
 func (m *topMW) Tick() bool {
 	a := m.a
 	progress := false
+	// picking up answers: promptly, or slowly (every Stall-th cycle, one per port, with seeded extra stalls)
+	now := uint64(a.engine.CurrentTime()) / 1000
+	slow := a.c.Stall > 1
+	pick := !slow || (now%uint64(a.c.Stall) == 0 && a.stallRng.Intn(4) != 0)
 	for _, w := range []string{"A", "B"} {
-		for {
+		for pick {
 			msg := a.ports[w].RetrieveIncoming()
 			if msg == nil {
 				break
 			}
 			progress = true
 			a.recv[w] = append(a.recv[w], msg.Meta().RspTo)
+			if slow {
+				break
+			}
+		}
+		if a.ports[w].PeekIncoming() != nil {
+			progress = true // come back for the rest
+		}
+	}
+	// the reset, when the behaviour has one
+	switch a.resetState {
+	case 0:
+		if a.resetAt >= 0 && len(a.sent) == a.resetAt && *a.accepted >= a.resetAt && a.lower.nComp >= a.resetComps {
+			a.resetState, a.settle = 1, a.c.Quiet+25+4*a.c.Stall*len(a.c.Kinds)
+			progress = true
+		} else if a.resetAt >= 0 && len(a.sent) == a.resetAt {
+			a.resetWait++ // keep ticking until the acceptances / completions before the reset have happened
+			if a.resetWait < 10*lowerPatience {
+				progress = true
+			}
+		}
+	case 1:
+		progress = true
+		a.settle--
+		if a.settle <= 0 && a.ctrl.CanSend() {
+			req := memcontrolprotocol.Req{Command: memcontrolprotocol.CmdReset}
+			req.ID = timing.GetIDGenerator().Generate()
+			req.Src, req.Dst = a.ctrl.AsRemote(), a.robCtrl
+			req.TrafficClass = "memcontrolprotocol.Req"
+			a.resetID = req.ID
+			a.res.ResetAcc = *a.accepted
+			a.ctrl.Send(req)
+			a.resetState = 2
+		}
+	case 2:
+		a.waited++
+		progress = a.waited < lowerPatience
+		if msg := a.ctrl.RetrieveIncoming(); msg != nil {
+			if rsp, ok := msg.(memcontrolprotocol.Rsp); ok && rsp.RspTo == a.resetID {
+				a.res.ResetOK = rsp.Success
+				a.res.ResetAns = *a.nAnswers
+				a.resetState, a.waited = 3, 0
+				a.lower.resetAcked = true
+				progress = true
+			}
 		}
 	}
 	for len(a.sent) < len(a.c.Kinds) {
 		g := len(a.sent)
+		if a.resetAt >= 0 && g >= a.resetAt && a.resetState != 3 {
+			break // requests after the reset wait for its acknowledgment
+		}
 		if a.need != nil && a.lower.nComp < a.need[g] {
 			progress = true // wait for the lower unit (bounded by its own patience)
 			if a.lower.gaveUp {
@@ -227,6 +298,8 @@ type lowerAgent struct {
 	gaveUp   bool
 	rng      *rand.Rand
 	total    int
+
+	resetAcked bool
 }
 
 const lowerPatience = 400
@@ -298,6 +371,18 @@ func (m *lowerMW) Tick() bool {
 	}
 	for l.step < len(l.c.Script) {
 		st := l.c.Script[l.step]
+		if st.Op == "reset" { // the driver agent's step: wait until the reset has been acknowledged
+			if !l.resetAcked {
+				l.waited++
+				if l.waited < 20*lowerPatience {
+					return true
+				}
+				l.deviated = true
+			}
+			l.waited = 0
+			l.step++
+			continue
+		}
 		if st.Op == "quiet" {
 			if l.quiet == 0 {
 				l.quiet = l.c.Quiet + 1
@@ -392,14 +477,17 @@ func runROBCase(c *robCase) (res robResult) {
 	spec.NumReqPerCycle = c.Width
 	spec.BottomUnit = lower.port.AsRemote()
 	r := rob.MakeBuilder().WithRegistrar(regr).WithSpec(spec).Build("ROB")
-	for name, size := range map[string]int{"Top": c.TopBuf, "Bottom": c.BottomBuf, "Control": 2} {
+	for name, size := range map[string]int{"Bottom": c.BottomBuf, "Control": 2} {
 		r.AssignPort(name, modeling.MakePortBuilder().WithRegistrar(regr).WithComponent(r).
 			WithSpec(modeling.PortSpec{BufSize: size}).Build(name))
 	}
+	// the Top port's incoming and outgoing capacities are chosen separately
+	r.AssignPort("Top", messaging.NewPort(r, c.TopBuf, orDefault(c.TopOut, c.TopBuf), "ROB.Top"))
 	robTop, robBottom := r.GetPortByName("Top"), r.GetPortByName("Bottom")
 
 	top := &topAgent{c: c, ports: map[string]messaging.Port{}, robTop: robTop.AsRemote(), lower: lower,
-		recv: map[string][]uint64{}}
+		recv: map[string][]uint64{}, resetAt: -1, res: &res, engine: engine,
+		stallRng: rand.New(rand.NewSource(c.StallSeed + 17)), robCtrl: r.GetPortByName("Control").AsRemote()}
 	top.Component = modeling.NewBuilder[struct{}, struct{}, modeling.None]().
 		WithEngine(engine).WithFreq(1 * timing.GHz).WithSpec(struct{}{}).Build("Driver")
 	top.AddMiddleware(&topMW{a: top})
@@ -423,6 +511,22 @@ func runROBCase(c *robCase) (res robResult) {
 		}
 	}
 
+	top.DeclarePort("Ctrl", memcontrolprotocol.Requester)
+	top.ctrl = messaging.NewPort(top, 2, 2, "Driver.Ctrl")
+	top.AssignPort("Ctrl", top.ctrl)
+	for i, st := range c.Script {
+		if st.Op == "reset" {
+			top.resetAt = st.Arrived
+			for _, e := range c.Script[:i] {
+				if e.Op == "complete" {
+					top.resetComps++
+				}
+			}
+		}
+	}
+	cc := directconnection.MakeBuilder().WithRegistrar(regr).Build("ConnCtrl")
+	cc.PlugIn(top.ctrl)
+	cc.PlugIn(r.GetPortByName("Control"))
 	ct := directconnection.MakeBuilder().WithRegistrar(regr).Build("ConnTop")
 	ct.PlugIn(top.ports["A"])
 	ct.PlugIn(top.ports["B"])
@@ -433,8 +537,8 @@ func runROBCase(c *robCase) (res robResult) {
 
 	// observation at the reorder buffer's Top port
 	var accIDs []uint64
-	nAccepted := 0
-	top.accepted = &nAccepted
+	nAccepted, nAnswers := 0, 0
+	top.accepted, top.nAnswers = &nAccepted, &nAnswers
 	type rawAns struct {
 		msg   messaging.Msg
 		cycle uint64
@@ -456,6 +560,7 @@ func runROBCase(c *robCase) (res robResult) {
 			}
 		case messaging.HookPosPortMsgSend:
 			raw = append(raw, rawAns{msg, uint64(engine.CurrentTime()) / 1000})
+			nAnswers++
 			inROB--
 		}
 	}))
